@@ -73,11 +73,19 @@ def gen_cases(ctx):
     ds_cases.append(dict(impl="ds", seed=rng.next(), d=d, k=k, T=rng.rint(1, 5 if quick else 8),
                          b=rng.choice(bs), m=rng.rint(1, 4), pad_start=pad, p=rng.choice([2, 4, 6]),
                          hist=hk[i % len(hk)], ridge=rng.choice([0.0, 0.0, 1e-6])))
+    if i % 3 == 1:
+      # the gradient as a rank-3 tensor with the sketched axis first / in the middle / last (the
+      # contraction over "all other axes" is an unfolding; added after a seeded change was missed)
+      td = [rng.rint(1, 3), rng.rint(2, 3)]
+      ds_cases[-1].update(m=td[0] * td[1], tdims=td, axis=i // 3 % 3)
     d = rng.rint(2, 5 if quick else 6)
     tf_cases.append(dict(impl="tf", seed=rng.next(), d=d, k=rng.rint(1, min(3, d)),
                          T=rng.rint(1, 5 if quick else 8), b=rng.choice(bs), m=rng.rint(2, 4),
                          hist=hk[i % len(hk)], eps=rng.choice([1e-7, 0.0, 1e-3]),
                          rel_eps=bool(rng.below(2))))
+    if i % 3 == 2:
+      td = [rng.rint(2, 3), rng.rint(2, 3)]        # tearfree rejects unit dimensions
+      tf_cases[-1].update(m=td[0] * td[1], tdims=td, axis=i // 3 % 3)
     d = rng.rint(3, 6)
     oco_cases.append(dict(impl="oco", seed=rng.next(), d=d, ell=rng.rint(2, min(4, d)),
                           T=rng.rint(1, 6 if quick else 10), hist=hk[i % len(hk)],
